@@ -8,7 +8,6 @@ VERIF = os.path.dirname(os.path.dirname(os.path.abspath(__file__)))
 NA = {
     "C06": "Whether a depends(watch=True) method is registered exactly once depends on the run-time contents of cls.__dict__, the MRO and the _depends['watch'] lists of every ancestor over an unbounded space of class shapes; the only code facts are single-site (the de-dup filter in the metaclass) and a rule on them would be a text match on one line, not a decision of the property. No dominance, pairing or table-agreement fact bounds the invocation count (DESIGN.md §4).",
     "C07": "Which watchers exist after a history of attach/replace/detach is heap state built by _update_deps at run time; no dominance/pairing fact over the source bounds 'fires exactly once per change of the value reached through the current path' (DESIGN.md §4).",
-    "C11": "The merged value of each slot is the result of a run-time search over the MRO with Undefined sentinels for an exponential space of hierarchies; nothing about 'nearest ancestor wins per attribute' is visible as a shape of __param_inheritance that a behaviour-preserving rewrite would keep (DESIGN.md §4).",
     "C20": "Round-trip equality of eval(pprint(x)) is a statement about repr of run-time values (quoting, inf, 1-tuples); it has no structural clause decidable without executing the printer (DESIGN.md §4).",
 }
 
@@ -20,6 +19,10 @@ def claim(pid, text, note, technique):
     CLAIMS[pid] = (text, note, technique)
 
 
+claim("C11",
+      "Bounded decision of C11: ParameterizedMetaclass.__param_inheritance is interpreted abstractly on a new class below a parent (that re-declares the Parameter or skips it) and a grandparent, for every subset of default / bounds / doc / label declared anew x Parameter type changed or not x an ancestor with instantiate=True x the validator's verdict x a default that is a value / None / falsy: per slot the nearest declaring ancestor wins (else the type's default, callable defaults called with the Parameter), inherited containers are copied, instantiate is inherited, the merged default is validated whenever the type changed or a validated slot was declared anew with a non-None merged default, and creation fails iff it is rejected; both routes the property names (class creation, add_parameter, and a Parameter assigned at class level) reach that function.",
+      "Bounded: hierarchies of depth three with a skipped level; deeper chains and multiple-inheritance merges run the same loop but are not enumerated. That allow_None is recomputed from the class's own declaration (Parameter.__init__ of each type) and the correctness of the validators themselves (C01) are not decided here. Assumes ancestors were created earlier, so their Parameter objects have every slot filled.",
+      "static analysis: finite-domain abstract interpretation of __param_inheritance against a specification written from the property; call-graph reachability of the merge from the three installation routes")
 claim("C05",
       "Structural decision of C05 on the current source: every temporary write of the dispatcher state (batching flag, trigger flag, event/watcher queues, syncing set, constant flags in edit_constant, Event mode in update) is restored -- to the saved value where one was saved -- on every exit including every exceptional one, and the outermost flush is passed on every exit of a flushing scope (R05.a-d); restore loops restore in every iteration (R05.e); context managers write saved state back on every exit after the yield (R05.f); an Event is reset even when its watcher raises (R05.g); a failing flush must leave no events behind (R05.h -- violated on the pinned tree, recorded as a known finding).",
       "Decides the restore/flush structure for every fault position at once (exceptional edges from every may-raise node); does not decide behavioural equivalence with a fresh object. Trusted: CPython ast, the may-raise model and alias table of DESIGN.md §2.3/2.4; finally blocks are summarised as atomic (loop-carried partial restores inside a finally are not decided).",
